@@ -104,6 +104,7 @@ type Exec struct {
 	goalSk []Term
 	dirty  map[string]bool
 	sorts  []sortEvent
+	closures []*ssa.Function // function constants materialised by this activation
 }
 
 func (e *Exec) root() *Exec {
@@ -306,10 +307,22 @@ func (e *Exec) peekTerm(x val, t types.Type) Term {
 
 func (e *Exec) fnConst(f *ssa.Function) Term {
 	e.g.sortOf(f.Signature)
+	if r := e.root(); r != nil {
+		seen := false
+		for _, c := range r.closures {
+			if c == f {
+				seen = true
+			}
+		}
+		if !seen {
+			r.closures = append(r.closures, f)
+		}
+	}
 	name := "fn_" + sanitize(f.String())
 	if !e.g.funSeen[name] {
 		e.g.funSeen[name] = true
 		e.g.sortDecl = append(e.g.sortDecl, fmt.Sprintf("(declare-fun %s () Fn)", name))
+		e.g.fnConsts = append(e.g.fnConsts, name)
 	}
 	return name
 }
@@ -1255,17 +1268,7 @@ func (e *Exec) makeInterface(x *ssa.MakeInterface) {
 		e.setVal(x, val{t: t})
 	default:
 		// interface with methods: keep the dynamic value through an injection function
-		xs := e.g.sortOf(x.X.Type())
-		fn := "box_" + sanitize(xs) + "_" + sanitize(s)
-		if !e.g.funSeen[fn] {
-			e.g.funSeen[fn] = true
-			e.g.declare(fmt.Sprintf("(declare-fun %s (%s) %s)", fn, xs, s))
-			e.g.declare(fmt.Sprintf("(declare-fun dyn_%s (%s) Int)", sanitize(s), s))
-			e.g.funSeen["dyn_"+sanitize(s)] = true
-		}
-		r := "(" + fn + " " + v + ")"
-		e.assume(eq("(dyn_"+sanitize(s)+" "+r+")", fmt.Sprint(e.w.typeTag(x.X.Type()))))
-		e.defVal(x, r)
+		e.defVal(x, e.g.boxTerm(x.X.Type(), s, v, e.w))
 	}
 }
 
